@@ -72,7 +72,7 @@ def cases(draw, tier):
     picks = [[draw(st.integers(0, 11)) for _ in range(14)] for _ in range(norders)]
     vals = [draw(st.integers(0, 5)) for _ in range(24)]
     return {'spec': spec, 'tree': tree, 'picks': picks, 'vals': vals, 'wrong': draw(st.integers(0, 10 ** 6)),
-            'ids': draw(st.sampled_from(['none', 'all', 'mixed'])), 'share': draw(st.booleans())}
+            'ids': draw(st.sampled_from(['none', 'all', 'mixed'])), 'share': draw(st.booleans()), 'ext_twice': draw(st.booleans())}
 
 
 def strategy(tier):
@@ -199,7 +199,7 @@ def check(case, ctx):
     if tree is None:
         ctx.skip('no finite derivation drawn'); return
     try:
-        fgg, info = gen_fgg.build(spec, 'real', torch.float64, explicit_ids={'none': False, 'all': True, 'mixed': 'mixed'}[case.get('ids', 'none')])
+        fgg, info = gen_fgg.build(spec, 'real', torch.float64, explicit_ids={'none': False, 'all': True, 'mixed': 'mixed'}[case.get('ids', 'none')], ext_twice=bool(case.get('ext_twice')))
     except Exception as e:
         ctx.violation('build-failed', f'{type(e).__name__}: {e}'); return
     ninst = count_instances(tree)
